@@ -1080,7 +1080,10 @@ fn run_ops<const D: usize, const F: usize, const V: usize>(
         if name != "has_open" && !(bound("v", 0) && bound("d", 1) && bound("f", 2)) {
             continue;
         }
-        clk += 1;
+        // (a history may run on a clock that stands still: boards without a real-time clock report a constant time)
+        if h.get("clock").and_then(|x| x.as_str()) != Some("stalled") {
+            clk += 1;
+        }
         clock.0.set(clk);
         stats.api_calls += 1;
         sink.flush_events(events);
